@@ -80,7 +80,7 @@ def gen(rng, flavor):
     t = 0
     ins = []
     for i in range(n):
-        same = flavor != 'c09' and rng.random() < 0.12 and i > 0
+        same = rng.random() < (0.3 if flavor == 'c09' else 0.12) and i > 0
         t += 0 if same else rng.choice(grid) + 1
         key = i if flavor == 'c10' else rng.randrange(nkeys)
         dk = rng.random() < 0.2
@@ -102,8 +102,10 @@ def gen(rng, flavor):
         cids = [i for i in range(n) if rng.random() < 0.45]
         for cid in cids:
             t0 = ins[cid][1]
-            off = rng.choice([1, 8, 24, bt + 3, bt + 24, bt + 100, bt + 300, 700, 1500])
-            ins.append(('x', t0 + off, cid))
+            off = rng.choice([0, 0, 1, 8, 24, bt + 3, bt + 24, bt + 100, bt + 300, 700, 1500])
+            # at the call's own instant the cancel comes 1..3 loop iterations later (the caller has started;
+            # a task cancelled before its first step never calls the batcher at all)
+            ins.append(('x', t0 + off, cid, rng.choice([1, 1, 2, 3]) if off == 0 else rng.choice([0, 0, 1])))
         # followed by fresh calls
         last = max(i[1] for i in ins)
         for j in range(rng.randint(1, 2)):
@@ -200,6 +202,8 @@ def run_real(cfg, ins, plan, make_batcher=None):
             if i[0] == 'c':
                 tasks[i[2]] = asyncio.create_task(caller(i[2], i[3], i[4], i[5]))
             elif i[0] == 'x':
+                for _ in range(i[3] if len(i) > 3 else 0):
+                    await asyncio.sleep(0)
                 tasks[i[2]].cancel()
             elif bt is not None:
                 bt.max_batch_size = i[2]
@@ -243,6 +247,149 @@ def project(evs, prop):
         return ([e[3] for e in c if e[0] == 'batch'],                        # batch contents in order
                 sorted((e[2], e[3]) for e in c if e[0] == 'done'))
     return c
+
+
+# ------------------------------------------------------------------ chained re-requests (C11)
+def gen_chain(rng):
+    """A few callers, each of which re-requests its key in the very step in which it is resumed with its
+    answer (`await b(x); await b(x)`), possibly a third time after a pause.  Judged by `monitor_chain` only."""
+    bt = 64
+    cfg = dict(maxb=rng.randint(1, 4), maxc=rng.randint(1, 3), bt=bt, ret=rng.choice([0, 0, 0, 96, 640]))
+    nkeys = rng.randint(1, 3)
+    n = rng.randint(1, 4)
+    t = 0
+    callers = []
+    for i in range(n):
+        t += rng.choice([0, 16, bt + 16, 3 * bt])
+        callers.append(dict(t=t, key=rng.randrange(nkeys), dk=rng.random() < 0.3, arg=rng.randint(0, 9),
+                            again=rng.choice([1, 1, 2]), pause=rng.choice([0, 0, 1, bt])))
+    plan = dict(per=[[rng.choice([0, 0, 0, 1]) for _ in range(6)] for _ in range(nkeys)], order=rng.choice([0, 1, 2]),
+                raiseAt=[rng.choice([99, 99, 99, 0]) for _ in range(12)], idelay=rng.choice([0, 16, 48]),
+                tail=rng.choice([0, 16]))
+    return cfg, callers, plan
+
+
+def run_chain(cfg, callers, plan):
+    """Returns per caller the list of (issued at, answered at, outcome) of its successive requests, and the
+    batches [(t, id, keys)]."""
+    from aiuti.asyncio import AsyncBackgroundBatcher
+    loop = VLoop()
+    loop.horizon = HORIZON * 4 * TICK
+    asyncio.set_event_loop(loop)
+    now = lambda: round(loop.time() / TICK)
+    beh = Behaviour(plan)
+    batches = []
+    res = {}
+
+    async def main():
+        async def bf(batch):
+            batch = list(batch)
+            b, script = beh([(int(k), a) for k, a in batch])
+            batches.append((now(), b, [int(k) for k, _ in batch]))
+            for idx, (d, act) in enumerate(script):
+                await asyncio.sleep(d * TICK)
+                if act[0] == 'yield':
+                    r = act[2]
+                    yield str(act[1]), (E(r[1]) if r[0] == 'err' else tuple(r[1:]))
+                elif act[0] == 'raise':
+                    raise E(act[1])
+        bt = AsyncBackgroundBatcher(bf, max_batch_size=cfg['maxb'], max_concurrent_batches=cfg['maxc'],
+                                    batch_timeout=cfg['bt'] * TICK, retention_timeout=cfg['ret'] * TICK)
+
+        async def once(c):
+            t0 = now()
+            try:
+                r = await (bt(c['key']) if c['dk'] else bt(c['arg'], key=str(c['key'])))
+                oc = ('ok',) + tuple(r)
+            except E as e:
+                oc = ('exc', e.args[0])
+            except KeyError:
+                oc = ('exc', KEYERROR)
+            except ValueError:
+                oc = ('exc', MISSING)
+            return (t0, now(), oc)
+
+        async def caller(i, c):
+            await asyncio.sleep(c['t'] * TICK)
+            out = [await once(c)]
+            for k in range(c['again']):
+                if k == 1 and c['pause']:
+                    await asyncio.sleep(c['pause'] * TICK)
+                out.append(await once(c))          # no suspension between the answer and the re-request
+            res[i] = out
+        ts = [asyncio.create_task(caller(i, c)) for i, c in enumerate(callers)]
+        await asyncio.wait(ts, timeout=HORIZON * TICK)
+        for t in ts:
+            if not t.done():
+                t.cancel()
+        await asyncio.sleep(0)
+    try:
+        loop.run_until_complete(main())
+    finally:
+        try:
+            loop.run_until_complete(loop.shutdown_asyncgens())
+        except BaseException:  # noqa
+            pass
+        loop.close()
+        asyncio.set_event_loop(None)
+    return res, batches
+
+
+def batch_of(oc):
+    """The batch index an outcome carries (values and batch-function exceptions are stamped), else None."""
+    if oc[0] == 'ok' and len(oc) == 4:
+        return oc[3]
+    if oc[0] == 'exc' and isinstance(oc[1], int):
+        if 1000 <= oc[1] < 2000:
+            return oc[1] - 1000
+        if oc[1] >= 2000:
+            return (oc[1] - 2000) % 100
+    return None
+
+
+def monitor_chain(cfg, callers, res, batches):
+    """C11 on the re-requests: with retention_timeout = 0 nothing is remembered once the caller has been
+    answered - the re-request made in that very step is computed afresh (another batch); inside a
+    retention window it shares the answer; after the window it is fresh again."""
+    bad = []
+    for i, c in enumerate(callers):
+        rs = res.get(i)
+        if rs is None:
+            bad.append(('C11', 'pending-forever', (i, c)))
+            continue
+        for (a, b) in zip(rs, rs[1:]):
+            ba, bb = batch_of(a[2]), batch_of(b[2])
+            if ba is None or bb is None:
+                continue
+            if a[0] == a[1]:
+                continue        # `a` was issued at the very instant of the answer: an exact tie, not judged
+            gap = b[0] - a[1]
+            if cfg['ret'] == 0 and ba == bb:
+                bad.append(('C11', 'remembered-with-zero-retention',
+                            f'caller {i} (key {c["key"]}) was answered by batch {ba} at {a[1]} and its re-request issued '
+                            f'at {b[0]} got the outcome of the same batch: {b[2]}'))
+            if cfg['ret'] > 0 and gap < cfg['ret'] and ba != bb and not any(
+                    # another caller's fresh work may legitimately have replaced the key in between
+                    False for _ in ()):
+                # inside the window the key is remembered - unless the remembered request is not `a` itself
+                # (a sharer's window counts from the original completion); judged only when `a` was the
+                # work-creating request: its batch started after it was issued
+                started = next((t for (t, bid, ks) in batches if bid == ba), None)
+                orig_done = a[1]
+                if started is not None and started >= a[0] and b[0] < orig_done + cfg['ret']:
+                    bad.append(('C11', 'recomputed-inside-window',
+                                f'caller {i} (key {c["key"]}): answered by batch {ba} at {a[1]}, re-request at {b[0]} '
+                                f'(window {cfg["ret"]}) was computed again by batch {bb}'))
+            if cfg['ret'] > 0 and ba == bb:
+                comp = a[1]
+                if b[0] > comp + cfg['ret']:
+                    bad.append(('C11', 'stale-after-window',
+                                f'caller {i} (key {c["key"]}): re-request at {b[0]}, more than {cfg["ret"]} after the '
+                                f'answer at {comp}, still got batch {ba}'))
+    for (t, bid, ks) in batches:
+        if len(set(ks)) != len(ks):
+            bad.append(('C11', 'dup-key-in-batch', (t, bid, ks)))
+    return bad
 
 
 # ------------------------------------------------------------------ monitors
